@@ -937,8 +937,13 @@ def rule_rational_lattice(repo: Repo) -> List[Ob]:
         piv = incs[0].target.id
         loop = col_loops[0]
         scans = [c for c in ast.walk(loop) if isinstance(c, ast.comprehension) and isinstance(c.iter, ast.Call) and call_name(c.iter) == "range" and len(c.iter.args) == 2]
-        bad = [s for s in scans if src(s.iter.args[0]) != piv]
-        ok = bool(scans) and not bad
+        colvar = loop.target.id if isinstance(loop.target, ast.Name) else None
+        bad = [s for s in scans if src(s.iter.args[0]) == colvar]
+        good = [s for s in scans if src(s.iter.args[0]) == piv]
+        if not bad and not (good and len(good) == len(scans)):
+            obs.append(inconclusive("F-rational-lattice", f"{g.relpath}::{g.qualname}::pivot-scan", g.relpath, loop.lineno, g.qualname, "row scans of the elimination not recognised"))
+            continue
+        ok = not bad
         obs.append(Ob("F-rational-lattice", f"{g.relpath}::{g.qualname}::pivot-scan", g.relpath, (bad or scans or [loop])[0].iter.lineno if (bad or scans) else loop.lineno, g.qualname, ok,
                       f"row scans of the elimination start at the pivot counter `{piv}` (rows above it are finished pivots)" if ok else
                       f"a row scan starts at `{src(bad[0].iter.args[0]) if bad else '?'}` instead of the pivot counter `{piv}`: when an equation is dependent the counter lags behind the column index and rows are skipped"))
